@@ -1,0 +1,27 @@
+//go:build verif
+
+package shard
+
+import (
+	"github.com/nspcc-dev/neofs-node/pkg/local_object_storage/blobstor/common"
+	meta "github.com/nspcc-dev/neofs-node/pkg/local_object_storage/metabase"
+	"github.com/nspcc-dev/neofs-node/pkg/local_object_storage/writecache"
+)
+
+// VerifRemoveGarbage runs one garbage collector pass (expired tombstones,
+// then the garbage list) synchronously (verification harness only).
+func (s *Shard) VerifRemoveGarbage() { s.removeGarbage() }
+
+// VerifBlobstor returns the shard's main object storage.
+func (s *Shard) VerifBlobstor() common.Storage { return s.blobStor }
+
+// VerifWriteCache returns the shard's write-cache (nil if disabled).
+func (s *Shard) VerifWriteCache() writecache.Cache {
+	if !s.hasWriteCache() {
+		return nil
+	}
+	return s.writeCache
+}
+
+// VerifMetabase returns the shard's metabase.
+func (s *Shard) VerifMetabase() *meta.DB { return s.metaBase }
